@@ -340,6 +340,10 @@ func TestBufFree(t *testing.T) {
 							mu.Unlock()
 						}
 						pb.returned = stamp()
+						// the argument slice belongs to the caller again once Put has returned: reuse it
+						for i := range args {
+							args[i] = -7
+						}
 					}
 				}(p)
 			}
